@@ -630,6 +630,11 @@ def r02d(model, ctx):
     # simulator: on_Assign hands the RHS normalised in its own shape to the LHS generator
     fa = model.func(f"{PYRTL}::_StatementCompiler.on_Assign")
     ok = any(pmatch("self.lhs(stmt.lhs)(self.rhs.sign(stmt.rhs))", n) is not None for n in ast.walk(fa))
+    if not ok:
+        # the same call spelt through locals: the path's result / last call after substitution
+        for p_ in run_paths([b for b in fa.body if not (isinstance(b, ast.Expr) and isinstance(b.value, ast.Constant))]):
+            cands = ([p_.ret] if p_.ret is not None else []) + [e for e in p_.effects if isinstance(e, ast.Call)]
+            ok = ok or any(pmatch("self.lhs(stmt.lhs)(self.rhs.sign(stmt.rhs))", c) is not None for c in cands)
     ctx.check(ok, R, "_StatementCompiler.on_Assign", "lhs-gen(stmt.lhs)(sign(stmt.rhs))",
               "on_Assign must pass self.rhs.sign(stmt.rhs) (the RHS normalised in its own shape) to the LHS generator",
               f"{PYRTL}:{fa.lineno}")
@@ -1232,6 +1237,23 @@ def r02f(model, ctx):
     paths = run_paths(lf.body)
     txt = " ; ".join(unparse(e) for p in paths for e in p.effects)
     ok = "mask & (1 << len(value)) - 1" in txt and "|=" in txt or "self.lhs[value] |= mask & (1 << len(value)) - 1" in txt
+    if not ok:
+        # the same update spelt differently: what is or-ed into self.lhs[value] is canonically mask & mask(len(value)),
+        # or-ed into the previous entry (|=, or `= self.lhs.get(value, 0) | ..` / `= self.lhs[value] | ..`)
+        from ..engine.bitalg import Canon
+        cn = Canon()
+        want = cn(ast.parse("mask & ((1 << len(value)) - 1)", mode="eval").body)
+        for p_ in paths:
+            for e in p_.effects:
+                if isinstance(e, ast.AugAssign) and isinstance(e.op, ast.BitOr) and unparse(e.target) == "self.lhs[value]":
+                    ok = ok or cn(e.value) == want
+                if isinstance(e, ast.Assign) and unparse(e.targets[0]) == "self.lhs[value]" and isinstance(e.value, ast.BinOp) and \
+                        isinstance(e.value.op, ast.BitOr):
+                    for old_, new_ in ((e.value.left, e.value.right), (e.value.right, e.value.left)):
+                        if unparse(old_) in ("self.lhs.get(value, 0)", "self.lhs[value]", "self.lhs.setdefault(value, 0)"):
+                            ok = ok or cn(new_) == want
+        if not ok:
+            need(any("self.lhs" in unparse(e) for p_ in paths for e in p_.effects), "LHSMaskCollector (Signal): no update of self.lhs found")
     ctx.check(ok, R, "LHSMaskCollector:Signal", "mask clipped to the signal's width and or-ed in",
               f"Signal must or-in the mask clipped to len(value): {txt}", f"{XFRM}:{lf.lineno}")
     # Operator ("u"/"s" reinterpretation) and SwitchValue (array proxy) hand the incoming mask on unchanged: a constant mask
